@@ -24,6 +24,9 @@ CLAIMED = {
  "C11": dict(engine="converge", path="harness/scen/c11.go", design="DESIGN.md section 4 (C11)",
    text="Seeded search over histories x pacings: 1-12 file-system operations of every kind the property lists, executed by 1-2 mutator tasks one system call at a time, interleaved by the seeded scheduler with the library's watcher goroutine, the fsnotify reader (batch reads of the inotify queue, tail coalescing, the lstat-at-delivery rule, watch removal on rmdir) and polling clients, with starvation knobs. Bounded liveness with an exact notion of 'changes have ceased': the simulated world has no timers, so quiescence means nothing can ever happen again; after quiescence, one query round, quiescence, the observed query round must equal (a) a cache freshly built by the real code from the final disk and (b) the reference model.",
    note="Trusted: the inotify model (sim/memfs events per inotify(7)) and the fsnotify v1.5.1 stub reproduce what the real kernel/library deliver; queue overflow and renaming a configured directory are outside the deciding configuration."),
+ "C20": dict(engine="reconfigure", path="harness/scen/c20.go", design="DESIGN.md section 4 (C20)",
+   text="Seeded search over option histories (1-6, thorough up to 40 Configure calls: directory lists that overlap, repeat, are disjoint or missing; auto-refresh on/off) on a NewCache instance or the package-level default cache (first touched by Configure, GetDefaultCache or a query), interleaved by the seeded scheduler with a mutator task, a polling client, every stale watcher goroutine an earlier configuration left behind, and windows of descriptor exhaustion around Configure calls (strict: another part of the process takes every freed descriptor; loose: it does not). At quiescence the reconfigured cache is compared with a new cache created with the final options in a second simulated process (devices, definitions, Spec-file errors, directory errors, directory list), resource bounds are asserted on the simulated kernel's own tables (watcher goroutines, inotify instances, poller descriptors, watched inodes), and a probe change in every final directory must be noticed without Refresh() iff auto-refresh is on.",
+   note="One known finding is recorded (scan starved of descriptors while the watcher could be created; known_findings.json). Ordinary file descriptors left open are not asserted (a forgotten Close is reclaimed by the os.File finalizer in real life)."),
 }
 
 PURE = {
